@@ -471,6 +471,106 @@ func checkC14(p *Prog, r *Report) {
 	// ---- R14.9 a queued packet owns its bytes ---------------------------------------------------------------
 	r.Rule("R14.9", "A reader that reuses one buffer for successive readStreamingPacket calls hands each packet on (to the packet connection's queue, to a channel, to another goroutine) as a private copy, never as a slice of that buffer: a packet still queued when the next frame is read keeps its contents (shared with C07).", 1)
 	checkQueuedPacketsOwnTheirBytes(p, r)
+
+	// ---- R14.10 the retained first packet is not recycled ---------------------------------------------------
+	r.Rule("R14.10", "The first packet of an accepted connection is handed to tcpPacketConn.AddConn, which queues it without copying: the bytes passed must come from a buffer this call allocated itself (make) and that nothing else keeps, returns to a pool or reuses, or a later connection's first frame overwrites a packet that is still queued (shared with C15 R15.12).", 1)
+	checkRetainedFirstPacket(p, r)
+}
+
+// checkRetainedFirstPacket: shared by C14 R14.10 and C15 R15.12.
+func checkRetainedFirstPacket(p *Prog, r *Report) {
+	add := p.Fn("tcpPacketConn.AddConn")
+	if !r.Anchor("tcpPacketConn.AddConn", add != nil) {
+		return
+	}
+	// the premise: AddConn keeps its second parameter (queues it) without copying
+	retained := false
+	par := p.paramObj(add, 1)
+	for _, g := range append([]*Func{add}, add.Lits...) {
+		walkBody(g, func(x ast.Node) bool {
+			if cl, ok := x.(*ast.CompositeLit); ok && typeStr(p.TypeOf(cl)) == "ice.streamingPacket" {
+				if d := p.LitField(cl, "Data"); d != nil {
+					if id := rootIdent(d); id != nil && p.ObjOf(id) == par {
+						retained = true
+					}
+				}
+			}
+			return true
+		})
+	}
+	if !retained {
+		r.OK("AddConn copies the first packet", p.Pos(add.Body.Pos()), "the first packet is not retained by AddConn: callers may reuse their buffer")
+		return
+	}
+	n := 0
+	for _, e := range p.Callers(add) {
+		if e.Call == nil || len(e.Call.Args) != 2 || p.isNilExpr(e.Call.Args[1]) {
+			continue
+		}
+		f := e.Caller
+		n++
+		id := rootIdent(p.Deref(f, e.Call.Args[1]))
+		if id == nil {
+			r.Unknown(f.Name+": first packet handed to AddConn", p.Pos(e.Call.Pos()), "the argument is not derived from a local buffer")
+			continue
+		}
+		b := p.ObjOf(id)
+		bad := ""
+		root := f.Root()
+		for _, fn := range append([]*Func{root}, root.Lits...) {
+			for _, d := range p.DefsOf(fn, b) {
+				if d.Zero {
+					continue
+				}
+				if d.Rhs == nil {
+					bad = "the buffer is redefined at " + p.Pos(d.Node.Pos())
+					continue
+				}
+				if rid := rootIdent(d.Rhs); rid != nil && p.ObjOf(rid) == b {
+					continue // a slice of itself
+				}
+				if c, ok := unparen(d.Rhs).(*ast.CallExpr); ok && p.CalleeName(c) == "builtin.make" {
+					continue
+				}
+				bad = "the buffer is " + stripVarLines(p.Canon(d.Rhs)) + " (" + p.Pos(d.Node.Pos()) + "), not a fresh allocation of this call"
+			}
+			// nothing else keeps it: no pool, no field, no global, no address taken
+			walkBody(fn, func(x ast.Node) bool {
+				switch y := x.(type) {
+				case *ast.CallExpr:
+					if nm := p.CalleeName(y); nm == "sync.Pool.Put" {
+						for _, a := range y.Args {
+							if p.mentionsObj(a, b) {
+								bad = "the buffer is returned to a pool at " + p.Pos(y.Pos())
+							}
+						}
+					}
+				case *ast.AssignStmt:
+					for i, l := range y.Lhs {
+						if i < len(y.Rhs) && p.mentionsObj(y.Rhs[i], b) {
+							local := false
+							if lid, isID := unparen(l).(*ast.Ident); isID {
+								if v, isVar := p.ObjOf(lid).(*types.Var); isVar && !v.IsField() && v.Pkg() != nil && v.Parent() != v.Pkg().Scope() {
+									local = true
+								}
+								if lid.Name == "_" {
+									local = true
+								}
+							}
+							if !local {
+								bad = "the buffer is stored outside the call at " + p.Pos(y.Pos())
+							}
+						}
+					}
+				}
+				return true
+			})
+		}
+		r.Check(bad == "", f.Name+": the first packet handed to AddConn owns its bytes", p.Pos(e.Call.Pos()), "a buffer allocated by this call and kept by nothing else", bad+": AddConn queues the packet without copying, so the next connection that gets the same memory overwrites a first message that has not been read yet")
+	}
+	if n == 0 {
+		r.Fail("callers of AddConn with a first packet", p.Pos(add.Body.Pos()), "no caller hands a first packet to AddConn (rule instance lost)")
+	}
 }
 
 // errOfCall: e is the error variable assigned from call (possibly in a
